@@ -500,6 +500,81 @@ pub struct Nested {
     pub dates: Option<Dates>,
 }
 
+/// serde attribute shapes: internally / adjacently tagged and untagged enums, renamed and skipped
+/// fields, a flattened map (they reach the deserializers through `deserialize_any` and serde's
+/// buffered `Content`, not through the typed entry points)
+#[derive(Serialize, Deserialize, Debug, Clone)]
+#[serde(tag = "type")]
+pub enum Tagged {
+    Alpha { x: i32 },
+    Beta { y: String, inner: Inner },
+    Gamma,
+}
+#[derive(Serialize, Deserialize, Debug, Clone)]
+#[serde(untagged)]
+pub enum Untagged {
+    I(i64),
+    S(String),
+    V(Vec<i32>),
+    T { a: i32, b: String },
+}
+#[derive(Serialize, Deserialize, Debug, Clone)]
+#[serde(tag = "kind", content = "data")]
+pub enum Adjacent {
+    One(i32),
+    Two { p: i32, q: Vec<Inner> },
+    Three,
+}
+#[derive(Serialize, Deserialize, Debug, Clone)]
+pub struct Attrs {
+    #[serde(rename = "re-named key")]
+    pub renamed: i32,
+    #[serde(default, skip_serializing_if = "Option::is_none")]
+    pub skipped: Option<String>,
+    pub tagged: Tagged,
+    pub tagged_list: Vec<Tagged>,
+    pub untagged: Vec<Untagged>,
+    pub adjacent: Adjacent,
+    pub adj_map: BTreeMap<String, Adjacent>,
+    #[serde(flatten)]
+    pub rest: BTreeMap<String, i32>,
+}
+pub fn g_tagged(t: &mut Tape) -> Tagged {
+    match t.below(3) {
+        0 => Tagged::Alpha { x: g_i32(t) },
+        1 => Tagged::Beta { y: g_string(t), inner: g_inner(t) },
+        _ => Tagged::Gamma,
+    }
+}
+pub fn g_untagged(t: &mut Tape) -> Untagged {
+    match t.below(4) {
+        0 => Untagged::I(crate::scalars::gen_int(t)),
+        1 => Untagged::S(g_string(t)),
+        2 => Untagged::V(g_vec(t, 3, g_i32)),
+        _ => Untagged::T { a: g_i32(t), b: g_string(t) },
+    }
+}
+pub fn g_adjacent(t: &mut Tape) -> Adjacent {
+    match t.below(3) {
+        0 => Adjacent::One(g_i32(t)),
+        1 => Adjacent::Two { p: g_i32(t), q: g_vec(t, 2, g_inner) },
+        _ => Adjacent::Three,
+    }
+}
+pub fn g_attrs(t: &mut Tape) -> Attrs {
+    let n = t.small(3);
+    Attrs {
+        renamed: g_i32(t),
+        skipped: g_opt(t, g_string),
+        tagged: g_tagged(t),
+        tagged_list: g_vec(t, 3, g_tagged),
+        untagged: g_vec(t, 4, g_untagged),
+        adjacent: g_adjacent(t),
+        adj_map: g_map(t, 2, g_adjacent),
+        rest: (0..n).map(|i| (format!("x-{i}"), g_i32(t))).collect(),
+    }
+}
+
 // unsupported shapes
 #[derive(Serialize, Deserialize, Debug, Clone)]
 pub struct BadNoneInSeq {
